@@ -594,6 +594,7 @@ func c20DialConn(c *Ctx) {
 	}
 	m.Models["fmt.Errorf"] = func(cl *fold.Call) fold.Val { return fold.Sym{Name: "scheme-error", NonNil: true} }
 	m.Models[ws+".hostport"] = func(cl *fold.Call) fold.Val {
+		cl.M.Emit(fold.Effect{Kind: "call", Name: "hostport", Args: cl.Args})
 		return fold.Tuple{fold.SymSeq{Name: "hostname", IsStr: true, Len: fold.Range(0, 1<<20)}, fold.SymSeq{Name: "addr", IsStr: true, Len: fold.Range(0, 1<<20)}}
 	}
 	ut := c.P.ByPath["net/url"]
@@ -635,6 +636,22 @@ func c20DialConn(c *Ctx) {
 		desc := "[" + p.ChoiceString() + "]"
 		dialed := len(p.Calls("netdial")) > 0 && p.Chose("dial.err") == 0
 		closed := len(p.Calls("Close")) > 0
+		// where: the address is what hostport makes of the URL's host (which keeps the brackets of
+		// an IPv6 literal and adds the default port only when none is given), with :80 / :443
+		if nd := p.Calls("netdial"); len(nd) > 0 {
+			wantPort := []string{`":80"`, `":443"`, ""}[p.Chose("scheme")]
+			hp := p.Calls("hostport")
+			okAddr := false
+			for _, h := range hp {
+				if len(h.Args) == 2 && strings.Contains(fold.Show(h.Args[0]), "Host") && fold.Show(h.Args[1]) == wantPort {
+					okAddr = true
+				}
+			}
+			last := nd[0].Args[len(nd[0].Args)-1]
+			if !okAddr || nameOf(last) != "addr" {
+				problems = append(problems, fmt.Sprintf("the address dialed is %s, want the address hostport derives from the URL's Host with default port %s %s", fold.Show(last), wantPort, desc))
+			}
+		}
 		switch {
 		case !dialed:
 			if e == "nil" {
